@@ -415,6 +415,12 @@ def rule_rowops(ctx: Ctx) -> None:
                         ctx.fail("own.rowops", m, c,
                                  f"row_sum is called with `{norm(a2)}` as the sign vector, which does not derive from the tableau's phase",
                                  func=qualname(fn), construct=f"row_sum(..., {norm(a2)}, ...)")
+                    copied = False
+                    if isinstance(a2, ast.Call) and ((call_attr(a2) == "copy" and isinstance(a2.func, ast.Attribute) and not a2.args) or
+                                                     (call_attr(a2) in ("copy", "array") and len(a2.args) == 1)):
+                        inner = a2.func.value if not a2.args else a2.args[0]
+                        if isinstance(inner, ast.Attribute) and inner.attr == "phase":
+                            a2, copied = inner, True      # row_sum works on a copy of the sign vector: only the returned vector carries the update
                     if isinstance(a2, ast.Attribute) and a2.attr == "phase":
                         recv = norm(a2.value)
                         par = getattr(c, "_parent", None)
@@ -428,12 +434,17 @@ def rule_rowops(ctx: Ctx) -> None:
                                     if isinstance(st, ast.Assign) and norm(st.targets[0]) == f"{recv}.phase" \
                                             and isinstance(st.value, ast.Name) and st.value.id == t.id:
                                         stored = True
+                        if not stored and not copied and _rowsum_in_place(repo):
+                            # row_sum writes r_vector[target_row] on the array it is handed and `.phase` hands out the tableau's own array:
+                            # the sign is updated whether or not the returned tuple is assigned
+                            stored = True
                         if stored:
                             ctx.ok("own.rowops", m, c, what="row_sum result stored back into phase")
                         else:
                             ctx.fail("own.rowops", m, c,
                                      f"the sign vector returned by row_sum is not stored back into `{recv}.phase`",
                                      func=qualname(fn), construct=f"row_sum on {recv}: phase result dropped")
+            total += _pivot_roles(ctx, m, fn)
     if total == 0:
         raise AnalysisError("own.rowops: no row operation found")
 
@@ -444,6 +455,80 @@ def _local_binding(fn: ast.FunctionDef, name: str) -> Optional[ast.AST]:
                 and st.targets[0].id == name:
             return st.value
     return None
+
+
+def _rowsum_in_place(repo: Repo) -> bool:
+    """row_sum updates the sign vector in place (a subscript store on its r_vector parameter, never rebound before) and every `phase`
+    property getter of the tableau classes returns the stored array itself — then a caller need not assign row_sum's result."""
+    lin = "graphiq/backends/stabilizer/functions/linalg.py"
+    fn = repo.anchor(lin, "row_sum")
+    if len(fn.args.args) < 3:
+        return False
+    r = fn.args.args[2].arg
+    rebound = any(isinstance(a, ast.Assign) and any(isinstance(t, ast.Name) and t.id == r for t in a.targets) for a in ast.walk(fn))
+    store = any(isinstance(a, ast.Assign) and any(isinstance(t, ast.Subscript) and isinstance(t.value, ast.Name) and t.value.id == r for t in a.targets) for a in ast.walk(fn))
+    if rebound or not store:
+        return False
+    tab = repo.module("graphiq/backends/stabilizer/tableau.py")
+    getters = [f for f in tab.functions() if f.name == "phase" and any(norm(d) == "property" for d in f.decorator_list)]
+    if not getters:
+        return False
+    for g in getters:
+        rets = [x for x in ast.walk(g) if isinstance(x, ast.Return) and x.value is not None]
+        if not rets or not all(isinstance(x.value, ast.Attribute) and norm(x.value) == "self._phase" for x in rets):
+            return False
+    return True
+
+
+def _pivot_roles(ctx: Ctx, m: Module, fn: ast.FunctionDef) -> int:
+    """own.rowops (roles): an elimination loop `for r in S: row_sum(.., P, r)` multiplies the pivot row P into every other row r of the
+    row set.  When P is itself taken from that row set (`P = S[0]`, or bound from a scan over S) and the call has P as the *target*
+    and the loop row as the row to add, the pivot is overwritten with the product of everything and the rows that had to be cleared
+    stay as they were.  (Accumulating into a scratch row — target an index expression outside the row set — is the other legitimate
+    form and is left alone.)"""
+    n = 0
+    for c in calls_in(fn, nested=False):
+        a = call_attr(c)
+        if a not in ("row_sum", "tab_row_sum"):
+            continue
+        base = 4 if a == "row_sum" else 1
+        kws = {k.arg: k.value for k in c.keywords}
+        add = kws.get("row_to_add", c.args[base] if len(c.args) > base else None)
+        tgt = kws.get("target_row", c.args[base + 1] if len(c.args) > base + 1 else None)
+        if add is None or tgt is None:
+            continue
+        loop = parent(c)
+        while loop is not None and not isinstance(loop, (ast.For, ast.FunctionDef)):
+            loop = parent(loop)
+        if not isinstance(loop, ast.For) or not isinstance(loop.target, ast.Name):
+            continue
+        v = loop.target.id
+        roots = {x.id for x in ast.walk(loop.iter) if isinstance(x, ast.Name)}
+        if not (isinstance(add, ast.Name) and add.id == v and isinstance(tgt, ast.Name) and tgt.id != v):
+            continue
+        P = tgt.id
+        from_set = False
+        for st in ast.walk(fn):
+            if isinstance(st, ast.Assign) and any(isinstance(t, ast.Name) and t.id == P for t in st.targets):
+                val = st.value
+                if isinstance(val, ast.Subscript) and isinstance(val.value, ast.Name) and val.value.id in roots:
+                    from_set = True
+                if isinstance(val, ast.Name):
+                    lp = parent(st)
+                    while lp is not None and not isinstance(lp, ast.FunctionDef):
+                        if isinstance(lp, ast.For) and isinstance(lp.target, ast.Name) and lp.target.id == val.id \
+                                and {x.id for x in ast.walk(lp.iter) if isinstance(x, ast.Name)} & roots:
+                            from_set = True
+                        lp = parent(lp)
+        if from_set:
+            n += 1
+            ctx.touch(m, fn)
+            ctx.fail("own.rowops", m, c,
+                     f"`{a}` in the loop over `{short(loop.iter)}` has the pivot `{P}` (a row taken from that set) as the target and the loop row `{v}` as the "
+                     f"row to add: the elimination must multiply the pivot into every other row (row_to_add={P}, target_row={v}), otherwise the "
+                     f"other rows keep their entry on the eliminated qubit and the pivot is overwritten",
+                     func=qualname(fn), construct=f"{a}: pivot {P} as target in loop over {short(loop.iter, 30)}")
+    return n
 
 
 def _phase_derived(fn: ast.FunctionDef, e: ast.AST) -> bool:
